@@ -3,13 +3,31 @@ import PoryProofs.WorklistBuild
 The FIFO worklist of `emitScriptStatement` (model: `PoryModel/Emitter.lean`) establishes the
 declarative compilation relation `Sem.Impl` (spec: `PorySpec/Impl.lean`).
 
-Main theorem: `emit_impl`.  Architecture:
+Main theorem (complete: commands, labels, `end`/`return` last, if / elif* / else?, while,
+condition-less while, do…while, break, continue, switch incl. the all-empty early exit):
+
+    theorem emit_impl (body : List Stmt) (chunks : List Chunk) (hs : ScopeIdsDistinct body)
+        (hd : OneDefaultL body) (h : scriptChunks body = .ok chunks) :
+        ∃ cx : Sem.Ctx, Sem.Impl chunks cx 0 0 body none
+
+No hypothesis on the boolean operators is needed (`splitBool` fails on an operator other than
+`&&` / `||`, so the success hypothesis `h` covers it).  `emit_impl_run` is the same statement on
+the final worklist state, with `cx := st.cx` read off its `brk` / `cont` tables.
+Companion files: WorklistBase.lean (basic lemmas, `Grows`, `Realizes`), WorklistBuild.lean (one
+`*_spec` lemma per chunk builder, e.g. `splitBool_spec`), WorklistFuel.lean (`scriptChunks_fuel`),
+WorklistTotal.lean (`no_unknown_return_point`, `scriptChunks_total`, `emit_impl_total`).
+
+Architecture:
 * `Inv st` — ids of `final ∪ queue` pairwise distinct and ≤ counter; queued chunks are well formed
-  (`QOK`); scope ids registered in `brk` ∪ binders still in the queue pairwise distinct; `cont` and
-  `brk` have the same keys.
+  (`QOK`: `useEndTerminator = false`, and a chunk queued with a branch has no statements); scope ids
+  registered in `brk` ∪ binders still in the queue pairwise distinct; `cont` and `brk` have the
+  same keys.
 * `Ext st st'` — lookups in `final`, `brk`, `cont` are preserved.
 * `Realizes G cx p` — what the final graph owes a queued chunk `p` (WorklistBase.lean).
-* `StepOut` — abstraction of one worklist step, with a *conditional* `realizes` clause.
+* `StepOut` — abstraction of one worklist step: the new chunks (fresh ids), the finalised chunk,
+  the scope entries registered, and a *conditional* `realizes` clause: any later graph `G` / `cx`
+  that contains the finalised chunk, agrees with the scope tables and realises the new chunks
+  realises the processed chunk.
 * `process_spec` — every successful `processChunk` is a `StepOut` (all statement kinds).
 * `step_inv`, `step_ext`, `run_spec` — induction on the run: every chunk still queued is realised
   by the FINAL graph.
@@ -55,6 +73,10 @@ structure StepOut (p : Chunk) (st0 st1 : WS) (nw : List Chunk) (ch : Chunk)
   nw_ids : ∀ q ∈ nw, st0.counter < q.id ∧ q.id ≤ st1.counter
   nw_nodup : (nw.map (·.id)).Nodup
   nw_qok : ∀ q ∈ nw, QOK q
+  /-- every new chunk is empty, or holds the statements after the compound statement `x` that ended
+  the processed chunk, or one of the blocks directly inside `x` (whose scope is registered) -/
+  nw_stmts : ∀ q ∈ nw, q.statements = [] ∨ ∃ pre x r, p.statements = pre ++ x :: r ∧
+      (q.statements = r ∨ (q.statements ∈ subBlocks x ∧ ∀ s ∈ scopeB x, s ∈ sc.map (·.1)))
   binders_perm : (sc.map (·.1) ++ qbinders nw).Perm (bindersL p.statements)
   realizes : ∀ (G : List Chunk) (cx : Ctx), findChunk G p.id = some ch →
       (∀ s v, st0.brk.lookup s = some v → cx.brk s = v) →
@@ -69,6 +91,8 @@ theorem StepOut.of_grows {p : Chunk} {st0 s1 st1 : WS} {nw : List Chunk} {ch : C
     (hb : st1.brk = sc.map (fun x => (x.1, x.2.1)) ++ s1.brk)
     (hcn : st1.cont = sc.map (fun x => (x.1, x.2.2)) ++ s1.cont)
     (hqok : ∀ q ∈ nw, QOK q)
+    (hstm : ∀ q ∈ nw, q.statements = [] ∨ ∃ pre x r, p.statements = pre ++ x :: r ∧
+      (q.statements = r ∨ (q.statements ∈ subBlocks x ∧ ∀ s ∈ scopeB x, s ∈ sc.map (·.1))))
     (hperm : (sc.map (·.1) ++ qbinders nw).Perm (bindersL p.statements))
     (hreal : ∀ (G : List Chunk) (cx : Ctx), findChunk G p.id = some ch →
       (∀ s v, st0.brk.lookup s = some v → cx.brk s = v) →
@@ -85,6 +109,7 @@ theorem StepOut.of_grows {p : Chunk} {st0 s1 st1 : WS} {nw : List Chunk} {ch : C
     nw_ids := fun q hq' => hc ▸ g.ids q hq'
     nw_nodup := g.nodup
     nw_qok := hqok
+    nw_stmts := hstm
     binders_perm := hperm
     realizes := hreal }
 
@@ -235,7 +260,7 @@ theorem process_spec (p : Chunk) (st0 st1 : WS) (hq : QOK p) (hp : processChunk 
       have hlen : pre.length = p.statements.length := by rw [hst]; simp
       rw [if_pos (by simp [hlen])] at hp
       injection hp with hp; subst hp
-      refine ⟨[], p, [], StepOut.of_grows (Grows.refl st0) rfl rfl rfl rfl rfl rfl (by simp) ?_ ?_⟩
+      refine ⟨[], p, [], StepOut.of_grows (Grows.refl st0) rfl rfl rfl rfl rfl rfl (by simp) (by simp) ?_ ?_⟩
       · rw [hst, List.append_nil, bindersL_simple pre hsim]; exact List.Perm.refl _
       · intro G cx hG _ _ _ _
         by_cases hb : p.branch = .none
@@ -262,6 +287,16 @@ theorem process_spec (p : Chunk) (st0 st1 : WS) (hq : QOK p) (hp : processChunk 
         rw [realizes_code hb]; intro hod
         rw [hst, OneDefaultL_append] at hod
         rw [hst]; exact impl_head hG hs hsim (himp hod.2)
+      have stm : ∀ (sc : List (Nat × Option Nat × Nat)) (q : Chunk),
+          (∀ s ∈ scopeB x, s ∈ sc.map (·.1)) →
+          (q.statements = [] ∨ q.statements = r ∨ q.statements ∈ subBlocks x) →
+          q.statements = [] ∨ ∃ pre x' r', p.statements = pre ++ x' :: r' ∧
+            (q.statements = r' ∨ (q.statements ∈ subBlocks x' ∧ ∀ s ∈ scopeB x', s ∈ sc.map (·.1))) := by
+        intro sc q hsc h
+        rcases h with h | h | h
+        · exact .inl h
+        · exact .inr ⟨pre, x, r, hst, .inl h⟩
+        · exact .inr ⟨pre, x, r, hst, .inr ⟨h, hsc⟩⟩
       cases x with
       | cmd c => exact absurd trivial hx
       | label t n g => exact absurd trivial hx
@@ -273,7 +308,8 @@ theorem process_spec (p : Chunk) (st0 st1 : WS) (hq : QOK p) (hp : processChunk 
           injection hp with hp; subst hp
           obtain ⟨nw, g, hqok, hperm, himp⟩ :=
             createIf_spec tok cond body elifs els p pre.length st0 s1 br ret r hilt hdrop hc
-          refine ⟨nw, { id := p.id, returnID := ret, statements := p.statements.take pre.length, branch := br }, [], StepOut.of_grows g rfl rfl rfl rfl rfl rfl hqok ?_ ?_⟩
+          refine ⟨nw, { id := p.id, returnID := ret, statements := p.statements.take pre.length, branch := br }, [], StepOut.of_grows g rfl rfl rfl rfl rfl rfl (fun q h => (hqok q h).1)
+            (fun q h => stm [] q (by simp [scopeB]) (hqok q h).2) ?_ ?_⟩
           · rw [hbind]; exact hperm
           · intro G cx hG _ _ _ hq'
             exact wrap G cx _ hG htake (himp G cx _ hG rfl (by simp [htake]) hq')
@@ -285,7 +321,8 @@ theorem process_spec (p : Chunk) (st0 st1 : WS) (hq : QOK p) (hp : processChunk 
           injection hp with hp; subst hp
           obtain ⟨nw, g, hqok, hperm, himp⟩ :=
             createWhile_spec tok sid cond body p pre.length st0 s1 br ret contId r hilt hdrop hc
-          refine ⟨nw, { id := p.id, returnID := ret, statements := p.statements.take pre.length, branch := br }, [(sid, ret, contId)], StepOut.of_grows g rfl rfl rfl rfl rfl rfl hqok ?_ ?_⟩
+          refine ⟨nw, { id := p.id, returnID := ret, statements := p.statements.take pre.length, branch := br }, [(sid, ret, contId)], StepOut.of_grows g rfl rfl rfl rfl rfl rfl (fun q h => (hqok q h).1)
+            (fun q h => stm _ q (by simp [scopeB]) (hqok q h).2) ?_ ?_⟩
           · rw [hbind, binders_while]; exact List.Perm.cons _ hperm
           · intro G cx hG _ _ hsc hq'
             have := hsc (sid, ret, contId) (by simp)
@@ -298,7 +335,8 @@ theorem process_spec (p : Chunk) (st0 st1 : WS) (hq : QOK p) (hp : processChunk 
           injection hp with hp; subst hp
           obtain ⟨nw, g, hqok, hperm, himp⟩ :=
             createDoWhile_spec tok sid cond body p pre.length st0 s1 br ret contId r hilt hdrop hc
-          refine ⟨nw, { id := p.id, returnID := ret, statements := p.statements.take pre.length, branch := br }, [(sid, ret, contId)], StepOut.of_grows g rfl rfl rfl rfl rfl rfl hqok ?_ ?_⟩
+          refine ⟨nw, { id := p.id, returnID := ret, statements := p.statements.take pre.length, branch := br }, [(sid, ret, contId)], StepOut.of_grows g rfl rfl rfl rfl rfl rfl (fun q h => (hqok q h).1)
+            (fun q h => stm _ q (by simp [scopeB]) (hqok q h).2) ?_ ?_⟩
           · rw [hbind, binders_doWhile]; exact List.Perm.cons _ hperm
           · intro G cx hG _ _ hsc hq'
             have := hsc (sid, ret, contId) (by simp)
@@ -312,7 +350,8 @@ theorem process_spec (p : Chunk) (st0 st1 : WS) (hq : QOK p) (hp : processChunk 
           rw [keepStatementsAfterJump_eq]
           obtain ⟨nw, g, hcode, hbd, _, himp⟩ := splitChunkForBranch_spec p pre.length st0 r hilt hdrop
           refine ⟨nw, { id := p.id, returnID := p.returnID, statements := p.statements.take pre.length, branch := .breakCtx dest }, [], StepOut.of_grows g rfl rfl rfl rfl rfl rfl
-            (fun q hq' => (hcode q hq').qok) ?_ ?_⟩
+            (fun q hq' => (hcode q hq').1.qok)
+            (fun q hq' => stm [] q (by simp [scopeB]) (.inr (.inl (hcode q hq').2))) ?_ ?_⟩
           · rw [hbind, binders_brk, hbd]; exact List.Perm.refl _
           · intro G cx hG hbrk _ _ hq'
             refine wrap G cx _ hG htake (fun hod => ?_)
@@ -328,7 +367,8 @@ theorem process_spec (p : Chunk) (st0 st1 : WS) (hq : QOK p) (hp : processChunk 
           rw [keepStatementsAfterJump_eq]
           obtain ⟨nw, g, hcode, hbd, _, himp⟩ := splitChunkForBranch_spec p pre.length st0 r hilt hdrop
           refine ⟨nw, { id := p.id, returnID := p.returnID, statements := p.statements.take pre.length, branch := .breakCtx (some dest) }, [], StepOut.of_grows g rfl rfl rfl rfl rfl rfl
-            (fun q hq' => (hcode q hq').qok) ?_ ?_⟩
+            (fun q hq' => (hcode q hq').1.qok)
+            (fun q hq' => stm [] q (by simp [scopeB]) (.inr (.inl (hcode q hq').2))) ?_ ?_⟩
           · rw [hbind, binders_cont, hbd]; exact List.Perm.refl _
           · intro G cx hG _ hcont _ hq'
             refine wrap G cx _ hG htake (fun hod => ?_)
@@ -343,7 +383,8 @@ theorem process_spec (p : Chunk) (st0 st1 : WS) (hq : QOK p) (hp : processChunk 
         injection hp with hp; subst hp
         obtain ⟨nw, g, hqok, hperm, himp⟩ :=
           createSwitch_spec tok sid operand cases p pre.length st0 s1 br ret swId r hilt hdrop hc
-        refine ⟨nw, { id := p.id, returnID := ret, statements := p.statements.take pre.length, branch := br }, [(sid, ret, swId)], StepOut.of_grows g rfl rfl rfl rfl rfl rfl hqok ?_ ?_⟩
+        refine ⟨nw, { id := p.id, returnID := ret, statements := p.statements.take pre.length, branch := br }, [(sid, ret, swId)], StepOut.of_grows g rfl rfl rfl rfl rfl rfl (fun q h => (hqok q h).1)
+          (fun q h => stm _ q (by simp [scopeB]) (hqok q h).2) ?_ ?_⟩
         · rw [hbind, binders_switch]; exact List.Perm.cons _ hperm
         · intro G cx hG _ _ hsc hq'
           have := hsc (sid, ret, swId) (by simp)
@@ -352,7 +393,7 @@ theorem process_spec (p : Chunk) (st0 st1 : WS) (hq : QOK p) (hp : processChunk 
     simp only at hp
     injection hp with hp; subst hp
     have hb : p.branch = .none := branch_none_of_stmts hq (by rw [hst]; simp)
-    refine ⟨[], { id := p.id, returnID := none, useEndTerminator := (c.name == "end"), statements := p.statements.take pre.length }, [], StepOut.of_grows (Grows.refl st0) rfl rfl rfl rfl rfl rfl (by simp) ?_ ?_⟩
+    refine ⟨[], { id := p.id, returnID := none, useEndTerminator := (c.name == "end"), statements := p.statements.take pre.length }, [], StepOut.of_grows (Grows.refl st0) rfl rfl rfl rfl rfl rfl (by simp) (by simp) ?_ ?_⟩
     · rw [hst, bindersL_append, bindersL_simple pre hsim, bindersL_cons, bindersL_nil]
       exact List.Perm.refl _
     · intro G cx hG _ _ _ _
@@ -456,6 +497,52 @@ theorem emit_impl (body : List Stmt) (chunks : List Chunk) (hs : ScopeIdsDistinc
     rw [realizes_code rfl] at this
     exact ⟨st.cx, this hd⟩
 
+/-- `emit_impl` on the final worklist state: the context is `st.cx`, read off `st.brk` / `st.cont`. -/
+theorem emit_impl_run (body : List Stmt) (f : Nat) (st : WS) (hs : ScopeIdsDistinct body)
+    (hd : OneDefaultL body) (h : runWorklist f (initWS body) = .ok st) :
+    Sem.Impl st.final st.cx 0 0 body none := by
+  have := (run_spec _ (initWS body) st h (inv_init body hs)).2
+    { id := 0, statements := body } (by simp [initWS])
+  rw [realizes_code rfl] at this
+  exact this hd
+
 #print axioms emit_impl
+
+/-! ### non-vacuity -/
+
+def cmdS (n : String) : Stmt := .cmd { name := n }
+def leafS (n : String) : BoolExpr := .leaf { operand := { lit := n } }
+
+/-- if / elif / else with `&&` and `||`, a `while` with `break` and a statement after it, a
+do…while with `continue`, a switch with shared, default and trailing body-less cases, a switch
+without any body, an infinite loop, `end` as the last statement -/
+def demoBody : List Stmt :=
+  [ cmdS "a",
+    .ite {} (.bin (leafS "x") .AND (.bin (leafS "y") .OR (leafS "z"))) [cmdS "t"]
+      [(leafS "e1", [cmdS "u"]), (leafS "e2", [])] (some [cmdS "v"]),
+    .while_ {} 1 (some (leafS "w")) [cmdS "b", .brk {} 1, cmdS "dead"],
+    .doWhile {} 2 (leafS "d") [.cont {} 2],
+    .switch_ {} 3 {} [({ lit := "1" }, false, []), ({ lit := "2" }, false, [cmdS "c2", .brk {} 3]),
+                      ({}, true, [cmdS "dflt"]), ({ lit := "4" }, false, [])],
+    .switch_ {} 4 {} [({ lit := "1" }, false, [])],
+    .while_ {} 5 none [cmdS "loop"],
+    cmdS "end" ]
+
+theorem demo_scopes : ScopeIdsDistinct demoBody := by unfold ScopeIdsDistinct; decide
+theorem demo_oneDefault : OneDefaultL demoBody := by
+  unfold demoBody
+  repeat' (first | decide | constructor)
+theorem demo_ok : (scriptChunks demoBody).toOption.map (·.length) = some 32 := by decide
+
+/-- non-vacuity of `emit_impl`: the hypotheses hold for `demoBody`, which compiles to 32 chunks -/
+example : ∃ chunks cx, scriptChunks demoBody = .ok chunks ∧ chunks.length = 32 ∧
+    Sem.Impl chunks cx 0 0 demoBody none := by
+  have hok := demo_ok
+  cases h : scriptChunks demoBody with
+  | error e => rw [h] at hok; cases hok
+  | ok chunks =>
+    rw [h] at hok
+    obtain ⟨cx, hcx⟩ := emit_impl demoBody chunks demo_scopes demo_oneDefault h
+    exact ⟨chunks, cx, rfl, by simpa [Except.toOption] using hok, hcx⟩
 
 end Pory.Emit
